@@ -171,8 +171,99 @@ fn concurrent(seed: u64, rep: &mut Report) {
     }
 }
 
+/// Block-cache key space: tables opened by several "instances" (option values with their own table
+/// files) that share ONE block cache, interleaved with other requests for ids, against the model
+/// (`Rain.CacheKeys`; theorem C01_block_cache_keys_never_collide): the partition ids must be the
+/// model's, and pairwise distinct (oracle).
+fn key_space(seed: u64, drv: &mut Drv, rep: &mut Report) {
+    use raindb::fs::FileSystem;
+    let mut rng = Prng::new(seed);
+    let line = format!("lru ids seed={seed}");
+    let fs = crate::simfs::SimFs::new();
+    let base = raindb::DbOptions::default(); // one block cache for every instance below
+    let ninst = rng.range(1, 3) as usize;
+    let mut opts = vec![];
+    for i in 0..ninst {
+        let path = format!("/i{i}");
+        fs.create_dir_all(std::path::Path::new(&format!("{path}/data"))).unwrap();
+        let o = raindb::DbOptions { db_path: path, filesystem_provider: fs.dyn_fs(), ..base.clone() };
+        for n in 1..=3u64 {
+            let entries: Vec<raindb::verif::Entry> = vec![(format!("k{i}{n}").into_bytes(), n, 1u8, vec![b'v'; 10])];
+            if let Err(e) = raindb::verif::table_build(&o, n, &entries) {
+                rep.fail("oracle", "harness:lru-ids-table-build", &e, &line);
+                return;
+            }
+        }
+        opts.push(o);
+    }
+    // every instance opens its tables through its own TableCache (as the database does); an
+    // instance that is "reopened" gets a fresh table cache, the block cache stays
+    let mut caches: Vec<raindb::verif::VerifTableCache> = opts.iter().map(|o| raindb::verif::VerifTableCache::new(o, 100)).collect();
+    let mut known: std::collections::BTreeMap<(usize, u64), u64> = Default::default();
+    let len = rng.range(2, 18);
+    let mut steps: Vec<String> = vec![];
+    let mut ids: Vec<u64> = vec![];
+    for _ in 0..len {
+        match rng.below(8) {
+            0 => {
+                let _ = base.block_cache().new_id();
+                steps.push("t".into());
+            }
+            1 => {
+                // close + reopen of one instance
+                let i = rng.below(ninst as u64) as usize;
+                caches[i] = raindb::verif::VerifTableCache::new(&opts[i], 100);
+                known.retain(|k, _| k.0 != i);
+                rep.count("lru.ids.instance-reopened");
+            }
+            _ => {
+                let i = rng.below(ninst as u64) as usize;
+                let n = rng.range(1, 3);
+                match caches[i].find_partition_id(n) {
+                    Ok(id) => {
+                        if let Some(prev) = known.get(&(i, n)) {
+                            // a hit of the table cache: the same table object, the same id
+                            if *prev != id {
+                                rep.fail("oracle", "c01:block-cache-partition-id-changes", &format!("the table cache handed out table {n} of instance {i} with partition id {id}, before it had {prev}"), &line);
+                                return;
+                            }
+                        } else {
+                            known.insert((i, n), id);
+                            ids.push(id);
+                            steps.push(format!("o:{i}:{n}"));
+                        }
+                    }
+                    Err(e) => {
+                        rep.fail("oracle", "harness:lru-ids-table-open", &e, &line);
+                        return;
+                    }
+                }
+            }
+        }
+    }
+    rep.case(&line, ids.len() >= 2);
+    rep.add("lru.ids.tables-opened", ids.len() as u64);
+    let mut sorted = ids.clone();
+    sorted.sort();
+    sorted.dedup();
+    if sorted.len() != ids.len() {
+        rep.fail("oracle", "c01:block-cache-partition-ids-collide", &format!("two opened tables sharing one block cache got the same partition id (ids in the order of opening: {ids:?}, steps {}): a block of one table is served for the same offset of the other", steps.join(" ")), &line);
+        return;
+    }
+    let ans = drv.ask(&format!("lru.ids {}", steps.join(" ")));
+    if ans == "no-model" {
+        return;
+    }
+    rep.model_requests += 1;
+    let want = if ids.is_empty() { "-".to_string() } else { ids.iter().map(|i| i.to_string()).collect::<Vec<_>>().join(",") };
+    if ans != want {
+        rep.drift.push(format!("block-cache partition ids differ from the model: implementation [{want}] model [{ans}] (steps {}) :: {line}", steps.join(" ")));
+        rep.count("model_drift");
+    }
+}
+
 pub fn rule() -> &'static str {
-    "the real LRUCache<u64,u64> against the Lean model: operation sequences (insert / get / remove) of length 1-80 over key spaces 1-2x the capacity, capacities 2-9, outputs of every operation, final length and the model's invariant compared; independently every hit is checked against the last value inserted for the key; plus 2-5 threads hammering one cache (a hit carries its key and never a version older than the reader's own last insert). Non-trivial = at least two operations; distinct by case text."
+    "the real LRUCache<u64,u64> against the Lean model: operation sequences (insert / get / remove) of length 1-80 over key spaces 1-2x the capacity, capacities 2-9, outputs of every operation, final length and the model's invariant compared; independently every hit is checked against the last value inserted for the key; plus 2-5 threads hammering one cache (a hit carries its key and never a version older than the reader's own last insert). Plus the block-cache key space: 1-3 option values with their own table files sharing ONE block cache open tables (some stay open, some are closed at once) interleaved with other requests for ids; the partition ids must be pairwise distinct (oracle) and the model's. Non-trivial = at least two operations; distinct by case text."
 }
 
 pub fn run(tier: &str, seed: u64, replay: Option<&str>, drv_path: &str) -> Report {
@@ -180,6 +271,11 @@ pub fn run(tier: &str, seed: u64, replay: Option<&str>, drv_path: &str) -> Repor
     let mut drv = Drv::spawn(drv_path);
     if let Some(line) = replay {
         let get = |name: &str| line.split_whitespace().find_map(|t| t.strip_prefix(&format!("{name}="))).map(|s| s.to_string());
+        if line.contains(" ids ") {
+            let s = get("seed").and_then(|s| s.parse().ok()).unwrap_or(0);
+            key_space(s, &mut drv, &mut rep);
+            return rep;
+        }
         if line.contains("concurrent") {
             let s = get("seed").and_then(|s| s.parse().ok()).unwrap_or(0);
             for _ in 0..10 {
@@ -210,6 +306,9 @@ pub fn run(tier: &str, seed: u64, replay: Option<&str>, drv_path: &str) -> Repor
             })
             .collect();
         check_case(cap, &ops, &mut drv, &mut rep);
+    }
+    for _ in 0..(if tier == "thorough" { 3000 } else { 300 }) {
+        key_space(rng.next() % 1_000_000_000, &mut drv, &mut rep);
     }
     let nc = if tier == "thorough" { 200 } else { 20 };
     for _ in 0..nc {
